@@ -96,8 +96,12 @@ func (h *Handler6) startRADVS(managed bool, other bool, prefixes []packet.Prefix
 	return radvs, nil
 }
 
+// Stop ends the advertisement loop. It never blocks: a stop request that is already pending is enough.
 func (r *RADVS) Stop() {
-	r.stopChannel <- true
+	select {
+	case r.stopChannel <- true:
+	default:
+	}
 }
 
 func (r *RADVS) SendRA() error {
